@@ -1,5 +1,4 @@
-(* Css/Shape.v — C07, the converse direction: a token the lexer returns has the shape its type prescribes (for the token
-   types listed in shaped). *)
+(* Css/Shape.v — C07, the converse direction: a token the lexer returns has the shape its type prescribes. *)
 From Verif Require Import Common.Base Common.Tactics Common.Lx Css.Model Css.Basics Css.Bounds Css.Proofs Css.Agree Css.Relex Css.Classes.
 From Coq Require Import ZifyBool.
 
@@ -13,14 +12,41 @@ Proof.
   split; [apply (css_scan_cut _ rest); assumption|]. split; assumption.
 Qed.
 
-(* the token types whose shape is characterised here; the others (names, dimensions, strings, urls) are not *)
-Definition shaped (ty : ttype) : bool :=
+(* --- the shapes of the token types, as predicates on the token's bytes alone ------------------------------------ *)
+Definition str_shape (b : list Z) : Prop :=
+  exists q body, is_quote q /\
+    ((b = q :: body ++ [q] /\ sbody q body [q]) \/
+     (exists bs, b = q :: body ++ bs /\ sbody q body bs /\ (bs = [] \/ bs = [92]))).
+Definition badstr_shape (b : list Z) : Prop :=
+  exists q body nl, is_quote q /\ b = q :: body ++ [nl] /\ sbody q body [nl] /\ is_nl nl = true.
+Definition string_shape (ty : ttype) (b : list Z) : Prop :=
+  match ty with TString => str_shape b | TBadString => badstr_shape b | _ => False end.
+
+Definition at_shape (b : list Z) : Prop := exists name, b = 64 :: name /\ (ident_text name [] \/ custom_text name []).
+Definition hash_shape (b : list Z) : Prop := exists body, b = 35 :: body /\ body <> [] /\ nbody body [].
+Definition func_shape (b : list Z) : Prop := exists name, b = name ++ [40] /\ ident_text name [40] /\ is_url_name name = false.
+Definition dim_shape (b : list Z) : Prop :=
+  exists num unit, b = num ++ unit /\ num_text num /\ (ident_text unit [] \/ custom_text unit []).
+
+Definition closer0 (cl : list Z) : Prop := cl = [41] \/ cl = [].
+
+Definition arg_shape (ty : ttype) (a : list Z) : Prop :=
   match ty with
-  | TWhitespace | TComment | TDelim | TNumber | TPercentage | TUnicodeRange
-  | TColon | TSemicolon | TComma | TLeftParenthesis | TRightParenthesis | TLeftBracket | TRightBracket | TLeftBrace | TRightBrace
-  | TIncludeMatch | TDashMatch | TPrefixMatch | TSuffixMatch | TSubstringMatch | TColumn | TCDO | TCDC => true
-  | _ => false
+  | TURL =>
+      (exists body ws2 cl, a = body ++ ws2 ++ cl /\ ubody body (ws2 ++ cl) /\ all_b is_ws ws2 /\ (body = [] -> ws2 = []) /\ closer0 cl) \/
+      (exists s ws2 cl, a = s ++ ws2 ++ cl /\ qarg s (ws2 ++ cl) false /\ all_b is_ws ws2 /\ closer0 cl)
+  | TBadURL =>
+      (exists body bc rem cl, a = body ++ bc :: rem ++ cl /\ ubody body (bc :: rem ++ cl) /\ url_stop bc (rem ++ cl) /\
+         (body = [] -> not_quote bc) /\ rbody (bc :: rem) cl /\ closer0 cl) \/
+      (exists body ws2 rem cl, a = body ++ ws2 ++ rem ++ cl /\ ubody body (ws2 ++ rem ++ cl) /\ body <> [] /\ all_b is_ws ws2 /\
+         ws2 <> [] /\ rem <> [] /\ is_ws (hd0 rem) = false /\ hd0 rem <> 41 /\ rbody rem cl /\ closer0 cl) \/
+      (exists s ws2 rem cl, a = s ++ ws2 ++ rem ++ cl /\ qarg s (ws2 ++ rem ++ cl) false /\ all_b is_ws ws2 /\
+         rem <> [] /\ is_ws (hd0 rem) = false /\ hd0 rem <> 41 /\ rbody rem cl /\ closer0 cl) \/
+      (exists s rem cl, a = s ++ rem ++ cl /\ qarg s (rem ++ cl) true /\ rbody rem cl /\ closer0 cl)
+  | _ => False
   end.
+Definition url_like (ty : ttype) (b : list Z) : Prop :=
+  exists name ws1 a, b = name ++ 40 :: ws1 ++ a /\ url_name name /\ all_b is_ws ws1 /\ arg_shape ty a.
 
 Definition ur_shape (t : list Z) : Prop :=
   (exists u h q, t = u :: 43 :: h ++ q /\ (u = 117 \/ u = 85) /\ all_b is_hex h /\ all_b is_qmark q /\ 1 <= len h + len q <= 6) \/
@@ -36,7 +62,18 @@ Definition tok_shape (ty : ttype) (b : list Z) : Prop :=
   | TNumber => num_text b
   | TPercentage => exists t, b = t ++ [37] /\ num_text t
   | TUnicodeRange => ur_shape b
-  | _ => if shaped ty then In (ty, b) fixed_tokens else True
+  | TString => str_shape b
+  | TBadString => badstr_shape b
+  | TIdent => ident_text b []
+  | TCustomPropertyName => custom_text b []
+  | TFunction => func_shape b
+  | TAtKeyword => at_shape b
+  | THash => hash_shape b
+  | TDimension => dim_shape b
+  | TURL => url_like TURL b
+  | TBadURL => url_like TBadURL b
+  | TError | TEmpty | TCustomPropertyValue => False
+  | _ => In (ty, b) fixed_tokens
   end.
 
 (* a comment body: up to the first "*/", or to the end of the input *)
@@ -66,32 +103,6 @@ Proof.
     + apply Hrec; [exact H|]. intros Hc. lia.
 Qed.
 
-(* the results of Next that are not one of the shaped types, or are a one-byte delimiter *)
-Definition free_or_delim (ty : ttype) (n : Z) : Prop := shaped ty = false \/ (ty = TDelim /\ n = 1).
-
-Lemma or_delim_free r : (is_err (fst r) = true \/ shaped (fst r) = false) -> free_or_delim (fst (or_delim r)) (snd (or_delim r)).
-Proof.
-  unfold or_delim. destruct (is_err (fst r)) eqn:E; intros [H|H]; cbn [fst snd]; try congruence.
-  - right. split; reflexivity.
-  - right. split; reflexivity.
-  - left. exact H.
-Qed.
-
-Lemma pos_tok_free t n : shaped t = false -> free_or_delim (fst (pos_tok t n)) (snd (pos_tok t n)).
-Proof. intros H. unfold pos_tok. destruct (0 <? n); cbn [fst snd]; [left; exact H|right; split; reflexivity]. Qed.
-
-Lemma string_free l r : consume_string l = Some r -> is_err (fst r) = true \/ shaped (fst r) = false.
-Proof. destruct r as [t n]. intros H. destruct (consume_string_ty _ _ _ H) as [->| ->]; cbn; auto. Qed.
-
-Lemma identlike_free l r : consume_identlike l = Some r -> is_err (fst r) = true \/ shaped (fst r) = false.
-Proof. destruct r as [t n]. intros H. destruct (consume_identlike_ty _ _ _ H) as [(-> & _)|[->|[->|[->| ->]]]]; cbn; auto. Qed.
-
-Lemma free_shape ty b : free_or_delim ty (len b) -> b <> [] -> shaped ty = true -> tok_shape ty b.
-Proof.
-  intros [H|(-> & H)] Hne Hs; [congruence|]. cbn [tok_shape].
-  destruct b as [|c [|c1 b]]; [congruence|eauto|]. rewrite !len_cons in H. pose proof (len_nonneg b). lia.
-Qed.
-
 Lemma one_byte (c : Z) (b' : list Z) : len (c :: b') = 1 -> b' = [].
 Proof. rewrite len_cons. destruct b' as [|x t]; [reflexivity|]. rewrite len_cons. pose proof (len_nonneg t). lia. Qed.
 
@@ -103,16 +114,12 @@ Proof. destruct b as [|x t]; [reflexivity|]. rewrite len_cons. pose proof (len_n
 Lemma hd0_is (b : list Z) k : hd0 b = k -> k <> 0 -> exists t, b = k :: t.
 Proof. destruct b as [|y t]; cbn [hd0]; intros H Hk; [congruence|]. exists t. congruence. Qed.
 
-Lemma free_res (r : ttype * Z) ty n : Some r = Some (ty, n) -> free_or_delim (fst r) (snd r) -> free_or_delim ty n.
-Proof. intros H. inversion H. subst r. cbn [fst snd]. auto. Qed.
-
 Lemma delim_shape (c : Z) b' : 1 = len (c :: b') -> tok_shape TDelim (c :: b').
 Proof. intros H. cbn [tok_shape]. rewrite (one_byte c b' (eq_sym H)). eauto. Qed.
 
 (* result (t, n) is the scan of the whole of b *)
 Ltac res H Hn := apply Some_pair_inj in H; destruct H as [<- Hn].
 Ltac nil_of b Hn := assert (b = []) by (apply len0_nil; rewrite ?len_cons in Hn; pose proof (len_nonneg b); lia); subst b.
-Ltac free_case H := apply free_shape; [apply (free_res _ _ _ H)|assumption|assumption].
 
 (* --- numbers ------------------------------------------------------------------------------------------------- *)
 Lemma scan_while_split P : forall l n, scan_while P l = Some n ->
@@ -238,21 +245,640 @@ Proof.
     split; [rewrite !len_cons, len_app; lia|]. left. exists x, h, q. repeat split; try assumption; lia.
 Qed.
 
-Lemma numeric_case b x ty : consume_numeric (b ++ [0]) = Some x -> Some (or_delim x) = Some (ty, len b) ->
-  b <> [] -> shaped ty = true -> tok_shape ty b.
+(* --- escapes --------------------------------------------------------------------------------------------------- *)
+Lemma hex_upto_inv : forall n d k, hex_upto n (d ++ [0]) = Some k ->
+  exists a r, d = a ++ r /\ len a = k /\ all_b is_hex a /\ k <= Z.of_nat n /\ (k < Z.of_nat n -> is_hex (hd0 r) = false).
 Proof.
-  destruct x as [t n]. intros E H Hne Hs. unfold or_delim in H. cbn [fst] in H.
+  induction n as [|n IH]; intros d k H.
+  - cbn [hex_upto] in H. apply Some_inj in H. subst k. exists [], d. repeat split; try constructor; try lia.
+  - cbn [hex_upto] in H. unfold consume_hexdigit in H. rewrite peekz_sent_0 in H. cbn [option_bind] in H.
+    destruct (is_hex (hd0 d)) eqn:Eh.
+    + destruct d as [|c d']; [discriminate Eh|]. cbn [hd0] in Eh. cbn [Z.ltb Z.compare app tl] in H.
+      apply bump_some in H. destruct H as (m & Hm & ->). destruct (IH _ _ Hm) as (a & r & -> & Hl & Ha & Hk & Hr).
+      exists (c :: a), r. split; [reflexivity|]. split; [rewrite len_cons; lia|]. split; [constructor; assumption|].
+      split; [lia|]. intros Hlt. apply Hr. lia.
+    + cbn [Z.ltb Z.compare] in H. apply Some_inj in H. subst k. exists [], d. repeat split; try constructor; try lia.
+Qed.
+
+Lemma escape_ws_inv r w : escape_ws (r ++ [0]) = Some w ->
+  (w = 0 /\ is_ws (hd0 r) = false) \/
+  (w = 1 /\ exists x r', r = x :: r' /\ is_ws x = true /\ x <> 13) \/
+  (w = 2 /\ exists r', r = 13 :: 10 :: r') \/
+  (w = 1 /\ exists r', r = 13 :: r' /\ hd0 r' <> 10).
+Proof.
+  unfold escape_ws, consume_newline, consume_whitespace. rewrite !peekz_sent_0. cbn [option_bind]. intros H.
+  destruct r as [|x r']; cbn [hd0 app] in H.
+  - cbn in H. apply Some_inj in H. left. split; [lia|reflexivity].
+  - destruct ((x =? 10) || (x =? 12)) eqn:Enl.
+    + cbn [option_bind Z.ltb Z.compare] in H. apply Some_inj in H. right. left. split; [lia|]. exists x, r'. split; [reflexivity|]. cls. lia.
+    + destruct (x =? 13) eqn:E13.
+      * rewrite peekz_1, peekz_sent_0 in H. cbn [option_bind] in H. assert (x = 13) by lia. subst x.
+        destruct (hd0 r' =? 10) eqn:E10; cbn [option_bind Z.ltb Z.compare] in H; apply Some_inj in H.
+        -- right. right. left. split; [lia|]. destruct (hd0_is r' 10) as (r2 & ->); [lia|lia|]. eauto.
+        -- right. right. right. split; [lia|]. exists r'. split; [reflexivity|lia].
+      * cbn [option_bind Z.ltb Z.compare hd0] in H. apply Some_inj in H. destruct (is_ws x) eqn:Ew.
+        -- right. left. split; [lia|]. exists x, r'. split; [reflexivity|]. split; [exact Ew|lia].
+        -- left. split; [lia|exact Ew].
+Qed.
+
+Lemma split_at (d : list Z) k : 0 <= k <= len d -> exists a r, d = a ++ r /\ len a = k.
+Proof. intros H. exists (firstz k d), (skipz k d). split; [symmetry; apply firstz_skipz|apply len_firstz; exact H]. Qed.
+
+Lemma escape_inv d n : consume_escape (d ++ [0]) = Some n -> 0 < n ->
+  exists e r nb, d = e ++ r /\ len e = n /\ esc_text e nb /\ nb r = true.
+Proof.
+  unfold consume_escape. rewrite peekz_sent_0. cbn [option_bind]. intros H Hn.
+  destruct (negb (hd0 d =? 92)) eqn:E92; [apply Some_inj in H; lia|]. apply negb_false_iff in E92.
+  destruct (hd0_is d 92) as (d1 & ->); [lia|lia|]. cbn [app tl] in H.
+  unfold consume_newline, consume_hexdigit in H. rewrite !peekz_sent_0 in H. cbn [option_bind] in H.
+  assert (Hnl : is_nl (hd0 d1) = false).
+  { destruct ((hd0 d1 =? 10) || (hd0 d1 =? 12)) eqn:E1; [cbn in H; apply Some_inj in H; lia|].
+    destruct (hd0 d1 =? 13) eqn:E2; [|cls; lia].
+    destruct (peekz (d1 ++ [0]) 1); cbn [option_bind] in H; [|discriminate]. destruct (z =? 10); cbn in H; apply Some_inj in H; lia. }
+  replace ((hd0 d1 =? 10) || (hd0 d1 =? 12)) with false in H by (revert Hnl; cls; lia).
+  replace (hd0 d1 =? 13) with false in H by (revert Hnl; cls; lia).
+  cbn [option_bind Z.ltb Z.compare] in H.
+  destruct (is_hex (hd0 d1)) eqn:Eh.
+  - destruct d1 as [|c1 d2]; [discriminate Eh|]. cbn [hd0] in *. cbn [Z.ltb Z.compare app tl] in H.
+    bind_inv H. bind_inv H. apply Some_inj in H.
+    destruct (hex_upto_inv _ _ _ E) as (a & r2 & -> & Hla & Ha & Hk & Hr2). change (Z.of_nat 5) with 5 in *.
+    assert (Hsk : skipz x (a ++ r2 ++ [0]) = r2 ++ [0]) by (rewrite <- Hla; apply skipz_len_app).
+    rewrite <- app_assoc, Hsk in E0. pose proof (len_nonneg a).
+    assert (Hh : all_b is_hex (c1 :: a)) by (constructor; assumption).
+    assert (Hlh : len (c1 :: a) = 1 + x) by (rewrite len_cons; lia).
+    destruct (escape_ws_inv _ _ E0) as [(-> & Hw)|[(-> & w & r3 & -> & Hw & H13)|[(-> & r3 & ->)|(-> & r3 & -> & H10)]]].
+    + destruct (x =? 5) eqn:E5.
+      * exists (92 :: c1 :: a), r2, not_ws_next. split; [reflexivity|]. split; [rewrite len_cons; lia|].
+        split; [apply Esc_hex6; [exact Hh|lia]|]. unfold not_ws_next. rewrite Hw. reflexivity.
+      * exists (92 :: c1 :: a), r2, not_hex_ws_next. split; [reflexivity|]. split; [rewrite len_cons; lia|].
+        split; [apply Esc_hex; [exact Hh|lia]|]. unfold not_hex_ws_next. rewrite Hw, Hr2 by lia. reflexivity.
+    + exists (92 :: (c1 :: a) ++ [w]), r3, any_next. split; [cbn [app]; rewrite <- app_assoc; reflexivity|].
+      split; [rewrite len_cons, len_app; change (len [w]) with 1; lia|]. split; [apply Esc_hex_ws; [exact Hh|lia|exact Hw|exact H13]|reflexivity].
+    + exists (92 :: (c1 :: a) ++ [13; 10]), r3, any_next. split; [cbn [app]; rewrite <- app_assoc; reflexivity|].
+      split; [rewrite len_cons, len_app; change (len [13; 10]) with 2; lia|]. split; [apply Esc_hex_crlf; [exact Hh|lia]|reflexivity].
+    + exists (92 :: (c1 :: a) ++ [13]), r3, not_lf_next. split; [cbn [app]; rewrite <- app_assoc; reflexivity|].
+      split; [rewrite len_cons, len_app; change (len [13]) with 1; lia|]. split; [apply Esc_hex_cr; [exact Hh|lia]|].
+      unfold not_lf_next. apply negb_true_iff. lia.
+  - cbn [Z.ltb Z.compare] in H. destruct (192 <=? hd0 d1) eqn:E192.
+    + destruct d1 as [|c1 d2]; [discriminate E192|]. cbn [hd0] in *. bind_inv H. apply Some_inj in H.
+      unfold rune_len in E. cbn [app] in E. rewrite peekz_0 in E. cbn [option_bind] in E.
+      rewrite len_cons, len_app in E. change (len [0]) with 1 in E. pose proof (len_nonneg d2).
+      replace (c1 <? 192) with false in E by lia. cbn [orb] in E.
+      assert (Hcut : forall k, len d2 = k -> k < rune_need c1 - 1 -> n = 2 + k ->
+                exists e r nb, 92 :: c1 :: d2 = e ++ r /\ len e = n /\ esc_text e nb /\ nb r = true).
+      { intros k Hk Hlt Hnk. exists (92 :: c1 :: d2), [], at_end. split; [rewrite app_nil_r; reflexivity|].
+        split; [rewrite !len_cons; lia|]. split; [apply Esc_rune_cut; lia|reflexivity]. }
+      assert (Hfull : forall k, k <= len d2 -> k = rune_need c1 - 1 -> n = 2 + k ->
+                exists e r nb, 92 :: c1 :: d2 = e ++ r /\ len e = n /\ esc_text e nb /\ nb r = true).
+      { intros k Hk Hlt Hnk. destruct (split_at d2 k) as (cont & r & -> & Hlc); [unfold rune_need in Hlt; destruct (c1 <? 224), (c1 <? 240); lia|].
+        exists (92 :: c1 :: cont), r, any_next. split; [reflexivity|].
+        split; [rewrite !len_cons; lia|]. split; [apply Esc_rune; lia|reflexivity]. }
+      unfold rune_need in Hcut, Hfull. replace (1 + (len d2 + 1) - 1) with (len d2 + 1) in E by lia.
+      destruct (len d2 + 1 <? 2) eqn:R2.
+      { apply Some_inj in E. subst x. apply (Hcut 0); [lia| |lia]. destruct (c1 <? 224), (c1 <? 240); lia. }
+      destruct ((c1 <? 224) || (len d2 + 1 <? 3)) eqn:R3.
+      { inv_all E. apply Some_inj in E. subst x. destruct (c1 <? 224) eqn:C2.
+        - apply (Hfull 1); lia.
+        - apply (Hcut 1); [lia| |lia]. destruct (c1 <? 240); lia. }
+      destruct ((c1 <? 240) || (len d2 + 1 <? 4)) eqn:R4.
+      { inv_all E. apply Some_inj in E. subst x. destruct (c1 <? 224) eqn:C2; [lia|]. destruct (c1 <? 240) eqn:C3.
+        - apply (Hfull 2); lia.
+        - apply (Hcut 2); lia. }
+      inv_all E. apply Some_inj in E. subst x. destruct (c1 <? 224) eqn:C2; [lia|]. destruct (c1 <? 240) eqn:C3; [lia|].
+      apply (Hfull 3); lia.
+    + destruct d1 as [|c1 d2].
+      * cbn in H. apply Some_inj in H. lia.
+      * cbn [hd0 app] in *. rewrite eofb_cons_sent, andb_false_r in H. apply Some_inj in H. subst n.
+        exists [92; c1], d2, any_next. split; [reflexivity|]. split; [reflexivity|]. split; [apply Esc_char; [exact Eh|exact Hnl|lia]|reflexivity].
+Qed.
+
+(* --- strings ------------------------------------------------------------------------------------------------- *)
+Lemma newline_inv r nl : consume_newline (r ++ [0]) = Some nl ->
+  (nl = 0 /\ is_nl (hd0 r) = false) \/ (0 < nl /\ exists nlb y, r = nlb ++ y /\ len nlb = nl /\ line_break nlb y).
+Proof.
+  unfold consume_newline. rewrite peekz_sent_0. cbn [option_bind]. intros H.
+  destruct ((hd0 r =? 10) || (hd0 r =? 12)) eqn:E1.
+  - apply Some_inj in H. subst nl. right. split; [lia|]. destruct r as [|c r']; [discriminate E1|]. cbn [hd0] in E1.
+    exists [c], r'. split; [reflexivity|]. split; [reflexivity|]. unfold line_break.
+    destruct (c =? 10) eqn:E; [left; f_equal; lia|right; left; f_equal; lia].
+  - destruct (hd0 r =? 13) eqn:E2.
+    + destruct (hd0_is r 13) as (r' & ->); [lia|lia|]. cbn [app] in H. rewrite peekz_1, peekz_sent_0 in H. cbn [option_bind] in H.
+      apply Some_inj in H. right. destruct (hd0 r' =? 10) eqn:E3.
+      * destruct (hd0_is r' 10) as (r2 & ->); [lia|lia|]. split; [lia|]. exists [13; 10], r2. split; [reflexivity|]. split; [subst nl; reflexivity|].
+        right. right. left. reflexivity.
+      * split; [lia|]. exists [13], r'. split; [reflexivity|]. split; [subst nl; reflexivity|]. right. right. right. split; [reflexivity|lia].
+    + apply Some_inj in H. left. split; [lia|]. cls. lia.
+Qed.
+
+Lemma escape_zero_inv t e : consume_escape (92 :: t ++ [0]) = Some e -> e <= 0 -> t = [] \/ is_nl (hd0 t) = true.
+Proof.
+  intros H He. destruct t as [|c t']; [auto|]. right. cbn [hd0]. destruct (is_nl c) eqn:Enl; [reflexivity|]. exfalso.
+  revert H. unfold consume_escape. rewrite peekz_0. cbn [option_bind negb Z.eqb Pos.eqb tl app].
+  unfold consume_newline, consume_hexdigit. rewrite !peekz_0. cbn [option_bind].
+  replace ((c =? 10) || (c =? 12)) with false by (revert Enl; cls; lia).
+  replace (c =? 13) with false by (revert Enl; cls; lia). cbn [option_bind Z.ltb Z.compare].
+  destruct (is_hex c) eqn:Eh.
+  - cbn [Z.ltb Z.compare tl]. intros H. bind_inv H. bind_inv H. apply Some_inj in H.
+    destruct (hex_upto_inv _ _ _ E) as (a & r2 & _ & Hla & _). pose proof (len_nonneg a).
+    pose proof (escape_ws_range _ _ E0). lia.
+  - cbn [Z.ltb Z.compare]. destruct (192 <=? c) eqn:E192.
+    + intros H. bind_inv H. apply Some_inj in H. destruct (rune_len_ok c t') as (m & Hm & Hm1 & _). cbn [app] in Hm. rewrite E in Hm.
+      apply Some_inj in Hm. lia.
+    + rewrite eofb_cons_sent, andb_false_r. intros H. apply Some_inj in H. lia.
+Qed.
+
+Definition str_end (q : Z) (ty : ttype) (rest : list Z) (extra : Z) : Prop :=
+  (ty = TString /\ extra = 0 /\ rest = []) \/
+  (ty = TBadString /\ extra = 1 /\ exists nl r, rest = nl :: r /\ is_nl nl = true) \/
+  (ty = TString /\ extra = 1 /\ exists r, rest = q :: r) \/
+  (ty = TString /\ extra = 1 /\ rest = [92]).
+
+Lemma string_loop_inv q : forall m d ty n, (length d <= m)%nat -> string_loop q (d ++ [0]) 0 = Some (ty, n) ->
+  exists body rest extra, d = body ++ rest /\ sbody q body rest /\ n = len body + extra /\ str_end q ty rest extra.
+Proof.
+  induction m as [|m IH]; intros d ty n Hlen H.
+  - destruct d as [|c t]; [|cbn [length] in Hlen; lia]. cbn in H. apply Some_pair_inj in H. destruct H as [<- <-].
+    exists [], [], 0. split; [reflexivity|]. split; [constructor|]. split; [reflexivity|left; auto].
+  - destruct d as [|c t].
+    { cbn in H. apply Some_pair_inj in H. destruct H as [<- <-].
+      exists [], [], 0. split; [reflexivity|]. split; [constructor|]. split; [reflexivity|left; auto]. }
+    cbn [length] in Hlen. cbn [app] in H. rewrite string_loop_0, eofb_cons_sent, andb_false_r in H.
+    assert (Hstep : forall pre y ty' n', c :: t = pre ++ y -> (length y <= m)%nat ->
+              string_loop q (y ++ [0]) 0 = Some (ty', n') ->
+              (forall body' rest, y = body' ++ rest -> sbody q body' rest -> sbody q (pre ++ body') rest) ->
+              exists body rest extra, c :: t = body ++ rest /\ sbody q body rest /\ len pre + n' = len body + extra /\ str_end q ty' rest extra).
+    { intros pre y ty' n' Hd Hy Hl Hsb. destruct (IH _ _ _ Hy Hl) as (body' & rest & extra & Hyb & Hb & Hn & He).
+      exists (pre ++ body'), rest, extra. split; [rewrite Hd, Hyb, app_assoc; reflexivity|]. split; [apply Hsb; assumption|].
+      split; [rewrite len_app; lia|exact He]. }
+    destruct (is_nl c) eqn:Enl.
+    { apply Some_pair_inj in H. destruct H as [<- <-]. exists [], (c :: t), 1. split; [reflexivity|]. split; [constructor|].
+      split; [reflexivity|]. right. left. eauto 6. }
+    destruct (c =? q) eqn:Eq.
+    { apply Some_pair_inj in H. destruct H as [<- <-]. exists [], (c :: t), 1. split; [reflexivity|]. split; [constructor|].
+      split; [reflexivity|]. right. right. left. assert (c = q) by lia. subst c. eauto 6. }
+    destruct (c =? 92) eqn:E92.
+    + assert (c = 92) by lia. subst c. bind_inv H. destruct (0 <? x) eqn:Ex.
+      * change (92 :: t ++ [0]) with ((92 :: t) ++ [0]) in E.
+        destruct (escape_inv _ _ E) as (eb & r & nb & Hd & Hle & Heb & Hnb); [lia|].
+        destruct (esc_text_bs _ _ Heb) as (e' & -> & He'). cbn [app] in Hd. injection Hd as ->.
+        rewrite len_cons in Hle. replace (Z.to_nat (x - 1)) with (length e') in H by (unfold len in Hle; lia).
+        rewrite <- app_assoc, string_loop_skipn in H.
+        destruct (string_loop q (r ++ [0]) 0) as [[ty' n']|] eqn:El; [|discriminate H]. cbn [shift2 bump2] in H.
+        apply Some_pair_inj in H. destruct H as [<- <-].
+        destruct (Hstep (92 :: e') r ty' n') as (body & rest & extra & Hd & Hb & Hn & He); [reflexivity|rewrite app_length in Hlen; lia|exact El| |].
+        { intros body' rest -> Hb. apply (SB_esc q _ nb); assumption. }
+        exists body, rest, extra. split; [exact Hd|]. split; [exact Hb|]. split; [rewrite len_cons in Hn; lia|exact He].
+      * bind_inv H. destruct (newline_inv _ _ E0) as [(-> & Hnl)|(Hpos & nlb & y & -> & Hlnl & Hlb)].
+        -- destruct (escape_zero_inv _ _ E) as [-> |Hc]; [lia| |congruence].
+           cbn in H. apply Some_pair_inj in H. destruct H as [<- <-].
+           exists [], [92], 1. split; [reflexivity|]. split; [constructor|]. split; [reflexivity|]. right. right. right. auto.
+        -- replace (Z.to_nat x0) with (length nlb) in H by (unfold len in Hlnl; lia).
+           rewrite <- app_assoc, string_loop_skipn in H.
+           destruct (string_loop q (y ++ [0]) 0) as [[ty' n']|] eqn:El; [|discriminate H]. cbn [shift2 bump2] in H.
+           apply Some_pair_inj in H. destruct H as [<- <-].
+           destruct (Hstep (92 :: nlb) y ty' n') as (body & rest & extra & Hd & Hb & Hn & He); [reflexivity|rewrite app_length in Hlen; lia|exact El| |].
+           { intros body' rest -> Hb. apply SB_cont; assumption. }
+           exists body, rest, extra. split; [exact Hd|]. split; [exact Hb|]. split; [rewrite len_cons in Hn; lia|exact He].
+    + destruct (string_loop q (t ++ [0]) 0) as [[ty' n']|] eqn:El; [|discriminate H]. cbn [bump2] in H.
+      apply Some_pair_inj in H. destruct H as [<- <-].
+      destruct (Hstep [c] t ty' n') as (body & rest & extra & Hd & Hb & Hn & He); [reflexivity|lia|exact El| |].
+      { intros body' rest -> Hb. cbn [app]. apply SB_char; [|exact Hb]. unfold str_byte. rewrite Eq, E92, Enl. reflexivity. }
+      exists body, rest, extra. split; [exact Hd|]. split; [exact Hb|]. split; [change (len [c]) with 1 in Hn; lia|exact He].
+Qed.
+
+Lemma string_inv q d ty : is_quote q -> consume_string ((q :: d) ++ [0]) = Some (ty, len (q :: d)) -> string_shape ty (q :: d).
+Proof.
+  intros Hq H. unfold consume_string in H. cbn [app] in H. rewrite peekz_0 in H. cbn [option_bind tl] in H.
+  destruct (string_loop q (d ++ [0]) 0) as [[ty' n']|] eqn:El; [|discriminate H]. cbn [bump2] in H.
+  apply Some_pair_inj in H. destruct H as [<- Hn]. rewrite len_cons in Hn.
+  destruct (string_loop_inv q _ d _ _ (le_n _) El) as (body & rest & extra & -> & Hb & Hn' & He).
+  rewrite len_app in Hn. assert (Hlr : len rest = extra) by lia.
+  destruct He as [(-> & -> & ->)|[(-> & -> & nl & r & -> & Hnl)|[(-> & -> & r & ->)|(-> & -> & ->)]]]; cbn [string_shape].
+  - exists q, body. split; [exact Hq|]. right. exists []. auto.
+  - nil_of r Hlr. exists q, body, nl. auto.
+  - nil_of r Hlr. exists q, body. split; [exact Hq|]. left. auto.
+  - exists q, body. split; [exact Hq|]. right. exists [92]. auto.
+Qed.
+
+(* --- names --------------------------------------------------------------------------------------------------- *)
+Lemma ident_loop_inv : forall m d n, (length d <= m)%nat -> ident_loop (d ++ [0]) 0 = Some n ->
+  exists t r, d = t ++ r /\ len t = n /\ nbody t r.
+Proof.
+  induction m as [|m IH]; intros d n Hlen H.
+  - destruct d as [|c t]; [|cbn [length] in Hlen; lia]. cbn in H. apply Some_inj in H. subst n.
+    exists [], []. split; [reflexivity|]. split; [reflexivity|constructor].
+  - destruct d as [|c t].
+    { cbn in H. apply Some_inj in H. subst n. exists [], []. split; [reflexivity|]. split; [reflexivity|constructor]. }
+    cbn [length] in Hlen. cbn [app] in H. rewrite ident_loop_0 in H.
+    assert (Hstop : Some 0 = Some n -> exists t0 r, c :: t = t0 ++ r /\ len t0 = n /\ nbody t0 r).
+    { intros H0. apply Some_inj in H0. subst n. exists [], (c :: t). split; [reflexivity|]. split; [reflexivity|constructor]. }
+    destruct (ident_char c) eqn:Ec.
+    + apply bump_some in H. destruct H as (k & Hk & ->). assert (Hlt : (length t <= m)%nat) by lia. destruct (IH _ _ Hlt Hk) as (t0 & r & -> & Hl & Hb).
+      exists (c :: t0), r. split; [reflexivity|]. split; [rewrite len_cons; lia|]. apply NB_char; assumption.
+    + destruct (c =? 92) eqn:E92; [|exact (Hstop H)]. assert (c = 92) by lia. subst c.
+      bind_inv H. destruct (0 <? x) eqn:Ex; [|exact (Hstop H)].
+      change (92 :: t ++ [0]) with ((92 :: t) ++ [0]) in E.
+      destruct (escape_inv _ _ E) as (eb & r0 & nb & Hd & Hle & Heb & Hnb); [lia|].
+      destruct (esc_text_bs _ _ Heb) as (e' & -> & He'). cbn [app] in Hd. injection Hd as ->.
+      rewrite len_cons in Hle. replace (Z.to_nat (x - 1)) with (length e') in H by (unfold len in Hle; lia).
+      rewrite <- app_assoc, ident_loop_skipn in H.
+      destruct (ident_loop (r0 ++ [0]) 0) as [k|] eqn:El; [|discriminate H]. cbn [bump] in H. apply Some_inj in H. subst n.
+      assert (Hlt : (length r0 <= m)%nat) by (rewrite app_length in Hlen; lia). destruct (IH _ _ Hlt El) as (t0 & r & -> & Hl & Hb).
+      exists ((92 :: e') ++ t0), r. split; [cbn [app]; rewrite <- app_assoc; reflexivity|].
+      split; [rewrite len_app, len_cons; lia|]. apply (NB_esc _ nb); assumption.
+Qed.
+
+Lemma ident_loop_inv' d n : ident_loop (d ++ [0]) 0 = Some n -> exists t r, d = t ++ r /\ len t = n /\ nbody t r.
+Proof. apply (ident_loop_inv (length d)). apply le_n. Qed.
+
+(* the first item of a name and its body, as ident_tail (not custom) reads them after the prefix *)
+Lemma ident_head_inv d p n :
+  (c <- peekz (d ++ [0]) 0 ;;
+   if ident_start c then n <- ident_loop (tl (d ++ [0])) 0 ;; Some (p + 1 + n)
+   else if c =? 92 then
+     e <- consume_escape (d ++ [0]) ;;
+     if 0 <? e then n <- ident_loop (skipz e (d ++ [0])) 0 ;; Some (p + e + n) else Some 0
+   else Some 0) = Some n -> 0 < n ->
+  exists t r, d = t ++ r /\ len t = n - p /\ ident_core t r.
+Proof.
+  rewrite peekz_sent_0. cbn [option_bind]. intros H Hn. destruct (ident_start (hd0 d)) eqn:Es.
+  - destruct d as [|c t']; [discriminate Es|]. cbn [hd0 app tl] in *. bind_inv H. apply Some_inj in H.
+    destruct (ident_loop_inv' _ _ E) as (t0 & r & -> & Hl & Hb).
+    exists (c :: t0), r. split; [reflexivity|]. split; [rewrite len_cons; lia|]. apply IC_char; assumption.
+  - destruct (hd0 d =? 92) eqn:E92; [|apply Some_inj in H; lia].
+    bind_inv H. destruct (0 <? x) eqn:Ex; [|apply Some_inj in H; lia]. bind_inv H. apply Some_inj in H.
+    destruct (escape_inv _ _ E) as (eb & r0 & nb & -> & Hle & Heb & Hnb); [lia|].
+    rewrite <- app_assoc, <- Hle, skipz_len_app in E0.
+    destruct (ident_loop_inv' _ _ E0) as (t0 & r & -> & Hl & Hb).
+    exists (eb ++ t0), r. split; [rewrite app_assoc; reflexivity|]. split; [rewrite len_app; lia|]. apply (IC_esc _ nb); assumption.
+Qed.
+
+Lemma name_inv d n : consume_ident_token (d ++ [0]) = Some n -> 0 < n ->
+  exists t r, d = t ++ r /\ len t = n /\ (ident_text t r \/ custom_text t r).
+Proof.
+  unfold consume_ident_token. rewrite peekz_sent_0. cbn [option_bind]. intros H Hn.
+  destruct (hd0 d =? 45) eqn:E45.
+  - destruct (hd0_is d 45) as (d1 & ->); [lia|lia|]. cbn [app] in H. rewrite peekz_1, peekz_sent_0 in H. cbn [option_bind] in H.
+    destruct (hd0 d1 =? 45) eqn:E2.
+    + destruct (hd0_is d1 45) as (d2 & ->); [lia|lia|]. unfold ident_tail in H. cbn [app] in H. rewrite skipz_2 in H.
+      bind_inv H. apply Some_inj in H. destruct (ident_loop_inv' _ _ E) as (t0 & r & -> & Hl & Hb).
+      exists (45 :: 45 :: t0), r. split; [reflexivity|]. split; [rewrite !len_cons; lia|]. right. constructor. exact Hb.
+    + unfold ident_tail in H. rewrite skipz_1 in H.
+      destruct (ident_head_inv d1 1 n H Hn) as (t0 & r & -> & Hl & Hc).
+      exists (45 :: t0), r. split; [reflexivity|]. split; [rewrite len_cons; lia|]. left. apply IT_dash. exact Hc.
+  - unfold ident_tail in H. rewrite skipz_0 in H.
+    destruct (ident_head_inv d 0 n H Hn) as (t0 & r & -> & Hl & Hc).
+    exists t0, r. split; [reflexivity|]. split; [lia|]. left. apply IT_core. exact Hc.
+Qed.
+
+Lemma whole (b t r : list Z) : b = t ++ r -> len t = len b -> t = b /\ r = [].
+Proof.
+  intros -> Hl. rewrite len_app in Hl. assert (r = []) by (apply len0_nil; lia). subst r. rewrite app_nil_r. auto.
+Qed.
+
+Lemma name_whole b : consume_ident_token (b ++ [0]) = Some (len b) -> b <> [] -> ident_text b [] \/ custom_text b [].
+Proof.
+  intros H Hne. assert (0 < len b) by (destruct b; [congruence|rewrite len_cons; pose proof (len_nonneg b); lia]).
+  destruct (name_inv _ _ H) as (t & r & Hb & Hl & Ht); [lia|]. destruct (whole _ _ _ Hb Hl) as [-> ->]. exact Ht.
+Qed.
+
+Lemma not_ident_dd rest r : ~ ident_text (45 :: 45 :: rest) r.
+Proof.
+  intros H. inversion H as [t r0 Hc|t r0 Hc]; subst; apply ident_core_hd in Hc; cbn [hd0] in Hc; destruct Hc as [Hc|Hc]; discriminate Hc.
+Qed.
+
+Lemma custom_inv b : consume_custom_variable (b ++ [0]) = Some (len b) -> hd0 b = 45 -> custom_text b [].
+Proof.
+  intros H Hhd. destruct (hd0_is b 45 Hhd) as (b1 & ->); [lia|]. assert (Hne : 45 :: b1 <> []) by discriminate.
+  assert (Hpos : 0 < len (45 :: b1)) by (rewrite len_cons; pose proof (len_nonneg b1); lia).
+  unfold consume_custom_variable in H. bind_inv H. destruct (negb (x =? 45)) eqn:E1; [apply Some_inj in H; lia|].
+  apply negb_false_iff in E1. cbn [app] in E. rewrite peekz_1, peekz_sent_0 in E. apply Some_inj in E.
+  destruct (hd0_is b1 45) as (b2 & ->); [lia|lia|].
+  destruct (name_whole _ H Hne) as [Hi|Hc]; [|exact Hc]. exfalso. exact (not_ident_dd _ _ Hi).
+Qed.
+
+Lemma at_inv b' : consume_at_keyword ((64 :: b') ++ [0]) = Some (len (64 :: b')) -> at_shape (64 :: b').
+Proof.
+  unfold consume_at_keyword. cbn [app tl]. intros H. bind_inv H. pose proof (len_nonneg b'). rewrite len_cons in H.
+  destruct (0 <? x) eqn:Ex; apply Some_inj in H; [|lia]. assert (x = len b') by lia. subst x.
+  exists b'. split; [reflexivity|]. apply name_whole; [exact E|]. intros ->. change (len (@nil Z)) with 0 in Ex. lia.
+Qed.
+
+Lemma hash_inv b' : consume_hash ((35 :: b') ++ [0]) = Some (len (35 :: b')) -> hash_shape (35 :: b').
+Proof.
+  unfold consume_hash. cbn [app tl]. rewrite peekz_sent_0. cbn [option_bind]. intros H. pose proof (len_nonneg b'). rewrite len_cons in H.
+  destruct (ident_char (hd0 b')) eqn:Ec.
+  - destruct b' as [|c1 b2]; [discriminate Ec|]. cbn [hd0 app tl] in *. bind_inv H. apply Some_inj in H. rewrite len_cons in H.
+    destruct (ident_loop_inv' _ _ E) as (t & r & Hb & Hl & Hn). destruct (whole _ _ _ Hb) as [-> ->]; [lia|].
+    exists (c1 :: b2). split; [reflexivity|]. split; [discriminate|]. apply NB_char; assumption.
+  - destruct (hd0 b' =? 92) eqn:E92; [|apply Some_inj in H; lia].
+    bind_inv H. destruct (0 <? x) eqn:Ex; [|apply Some_inj in H; lia]. bind_inv H. apply Some_inj in H.
+    destruct (escape_inv _ _ E) as (eb & r0 & nb & -> & Hle & Heb & Hnb); [lia|].
+    rewrite <- app_assoc, <- Hle, skipz_len_app in E0.
+    destruct (ident_loop_inv' _ _ E0) as (t & r & Hb & Hl & Hn). rewrite len_app in H. destruct (whole _ _ _ Hb) as [-> ->]; [lia|].
+    exists (eb ++ r0). split; [reflexivity|]. split; [destruct (esc_text_bs _ _ Heb) as (e' & -> & _); discriminate|].
+    replace r0 with (r0 ++ []) in Hnb by apply app_nil_r. apply (NB_esc _ nb); assumption.
+Qed.
+
+(* consumeIdentlike up to the decision between identifier, function and url *)
+Lemma identlike_name d ty n : consume_identlike (d ++ [0]) = Some (ty, n) -> ty = TIdent \/ ty = TFunction ->
+  exists name r, d = name ++ r /\ (ident_text name r \/ custom_text name r) /\
+    consume_ident_token (d ++ [0]) = Some (len name) /\ 0 < len name /\
+    ((ty = TIdent /\ n = len name) \/ (ty = TFunction /\ n = len name + 1 /\ hd0 r = 40 /\ is_url_name name = false)).
+Proof.
+  unfold consume_identlike. intros H Hty. bind_inv H.
+  destruct (x =? 0) eqn:E0; [apply Some_pair_inj in H; destruct H as [<- _]; destruct Hty; discriminate|].
+  destruct (consume_ident_token_ok d) as (m & Hm & Hm0). rewrite E in Hm. apply Some_inj in Hm. subst m.
+  destruct (name_inv _ _ E) as (name & r & -> & Hl & Hname); [lia|].
+  rewrite <- app_assoc in H. rewrite <- Hl in H. rewrite skipz_len_app, firstz_len_app in H.
+  rewrite peekz_sent_0 in H. cbn [option_bind] in H. exists name, r. split; [reflexivity|]. split; [exact Hname|].
+  split; [rewrite Hl; reflexivity|]. split; [lia|].
+  destruct (negb (hd0 r =? 40)) eqn:E40; [apply Some_pair_inj in H; destruct H as [<- <-]; left; auto|].
+  apply negb_false_iff in E40.
+  destruct (negb (is_url_name name)) eqn:Eu; [apply Some_pair_inj in H; destruct H as [<- <-]; right; apply negb_true_iff in Eu; repeat split; auto; lia|].
+  exfalso. bind_inv H. unfold url_arg in H.
+  assert (Hu : ty = TURL \/ ty = TBadURL) by (inv_all H; try (some_inv H; auto; fail); apply url_end_ty in H; exact H).
+  destruct Hty, Hu; congruence.
+Qed.
+
+Lemma tail_sent (b t r : list Z) : b ++ [0] = t ++ r -> len t <= len b -> exists r', r = r' ++ [0] /\ b = t ++ r'.
+Proof.
+  intros H Hl. pose proof (len_nonneg t). rewrite <- (firstz_skipz (len t) b) in H. rewrite <- app_assoc in H.
+  apply app_len_inj in H; [|apply len_firstz; lia]. destruct H as [H1 H2]. exists (skipz (len t) b). split; [symmetry; exact H2|].
+  pose proof (firstz_skipz (len t) b) as Hfs. rewrite H1 in Hfs. symmetry. exact Hfs.
+Qed.
+
+Lemma dimension_inv b : consume_numeric (b ++ [0]) = Some (TDimension, len b) -> dim_shape b.
+Proof.
+  unfold consume_numeric. intros H. bind_inv H. destruct (x =? 0) eqn:E0; [apply Some_pair_inj in H; destruct H; discriminate|].
+  bind_inv H. destruct (consume_number_token_ok b) as (m & Hm & Hx). rewrite E in Hm. apply Some_inj in Hm. subst m.
+  destruct (number_token_inv _ _ E) as (t & r & Hl & Hlt & Hnum); [lia|].
+  destruct (tail_sent _ _ _ Hl) as (r' & -> & ->); [lia|].
+  assert (Hsk : skipz x ((t ++ r') ++ [0]) = r' ++ [0]) by (rewrite <- app_assoc, <- Hlt; apply skipz_len_app). rewrite Hsk in *.
+  destruct (0 <? x0); [apply Some_pair_inj in H; destruct H; discriminate|].
+  bind_inv H. destruct (0 <? x1) eqn:Ei; apply Some_pair_inj in H; destruct H as [H Hn]; [|discriminate H].
+  destruct (name_inv _ _ E2) as (unit & r2 & Hr & Hlu & Hunit); [lia|]. rewrite len_app in Hn.
+  destruct (whole _ _ _ Hr) as [-> ->]; [lia|]. exists t, r'. auto.
+Qed.
+
+(* --- url( ) and bad-url ---------------------------------------------------------------------------------------- *)
+Lemma scan_while_sent P : P 0 = false -> forall d n, scan_while P (d ++ [0]) = Some n ->
+  exists a r, d = a ++ r /\ len a = n /\ all_b P a /\ P (hd0 r) = false.
+Proof.
+  intros P0. induction d as [|c t IH]; intros n H; cbn [app] in H; rewrite scan_while_cons in H.
+  - rewrite P0 in H. apply Some_inj in H. subst n. exists [], []. repeat split; [constructor|exact P0].
+  - destruct (P c) eqn:Pc.
+    + destruct (scan_while P (t ++ [0])) as [m|] eqn:Em; [|discriminate]. apply Some_inj in H. subst n.
+      destruct (IH m eq_refl) as (a & r & -> & Hl & Ha & Hr). exists (c :: a), r.
+      split; [reflexivity|]. split; [rewrite len_cons; lia|]. split; [constructor; assumption|assumption].
+    + apply Some_inj in H. subst n. exists [], (c :: t). repeat split; [constructor|exact Pc].
+Qed.
+
+(* the end of an unquoted url body *)
+Definition uend (ok : bool) (rest : list Z) : Prop :=
+  if ok then rest = [] \/ exists r, rest = 41 :: r
+  else exists bc y, rest = bc :: y /\ url_bad_char bc = true /\ (bc = 92 -> y = [] \/ is_nl (hd0 y) = true).
+
+Lemma url_loop_inv : forall m d ok n, (length d <= m)%nat -> url_loop (d ++ [0]) 0 = Some (ok, n) ->
+  exists body rest, d = body ++ rest /\ len body = n /\ ubody body rest /\ uend ok rest.
+Proof.
+  induction m as [|m IH]; intros d ok n Hlen H.
+  - destruct d as [|c t]; [|cbn [length] in Hlen; lia]. cbn in H. apply Some_pair_inj in H. destruct H as [<- <-].
+    exists [], []. split; [reflexivity|]. split; [reflexivity|]. split; [constructor|left; reflexivity].
+  - destruct d as [|c t].
+    { cbn in H. apply Some_pair_inj in H. destruct H as [<- <-].
+      exists [], []. split; [reflexivity|]. split; [reflexivity|]. split; [constructor|left; reflexivity]. }
+    cbn [length] in Hlen. cbn [app] in H. rewrite url_loop_0, eofb_cons_sent, andb_false_r in H. cbn [orb] in H.
+    destruct (c =? 41) eqn:E41.
+    { apply Some_pair_inj in H. destruct H as [<- <-]. exists [], (c :: t). split; [reflexivity|]. split; [reflexivity|].
+      split; [constructor|]. right. exists t. f_equal. lia. }
+    assert (Hstop : (c = 92 -> t = [] \/ is_nl (hd0 t) = true) -> url_bad_char c = true -> Some (false, 0) = Some (ok, n) ->
+              exists body rest, c :: t = body ++ rest /\ len body = n /\ ubody body rest /\ uend ok rest).
+    { intros H92 Hbad H0. apply Some_pair_inj in H0. destruct H0 as [<- <-]. exists [], (c :: t). split; [reflexivity|]. split; [reflexivity|].
+      split; [constructor|]. exists c, t. auto. }
+    destruct (url_bad_char c) eqn:Ebad.
+    + destruct (c =? 92) eqn:E92; [|apply Hstop; [lia|reflexivity|exact H]].
+      assert (c = 92) by lia. subst c. bind_inv H. destruct (0 <? x) eqn:Ex.
+      * change (92 :: t ++ [0]) with ((92 :: t) ++ [0]) in E.
+        destruct (escape_inv _ _ E) as (eb & r0 & nb & Hd & Hle & Heb & Hnb); [lia|].
+        destruct (esc_text_bs _ _ Heb) as (e' & -> & He'). cbn [app] in Hd. injection Hd as ->.
+        rewrite len_cons in Hle. replace (Z.to_nat (x - 1)) with (length e') in H by (unfold len in Hle; lia).
+        rewrite <- app_assoc, url_loop_skipn in H.
+        destruct (url_loop (r0 ++ [0]) 0) as [[ok' n']|] eqn:El; [|discriminate H]. cbn [shift2 bump2] in H.
+        apply Some_pair_inj in H. destruct H as [<- <-].
+        assert (Hlt : (length r0 <= m)%nat) by (rewrite app_length in Hlen; lia).
+        destruct (IH _ _ _ Hlt El) as (body & rest & -> & Hl & Hb & Hend).
+        exists ((92 :: e') ++ body), rest. split; [cbn [app]; rewrite <- app_assoc; reflexivity|].
+        split; [rewrite len_app, len_cons; lia|]. split; [apply (UB_esc _ nb); assumption|exact Hend].
+      * apply Hstop; [|reflexivity|exact H]. intros _. apply (escape_zero_inv _ _ E). lia.
+    + destruct (url_loop (t ++ [0]) 0) as [[ok' n']|] eqn:El; [|discriminate H]. cbn [bump2] in H.
+      apply Some_pair_inj in H. destruct H as [<- <-].
+      assert (Hlt : (length t <= m)%nat) by lia.
+      destruct (IH _ _ _ Hlt El) as (body & rest & -> & Hl & Hb & Hend).
+      exists (c :: body), rest. split; [reflexivity|]. split; [rewrite len_cons; lia|]. split; [|exact Hend].
+      apply UB_char; [|exact Hb]. unfold url_byte. rewrite Ebad, E41. reflexivity.
+Qed.
+
+Lemma badurl_loop_inv : forall m d n, (length d <= m)%nat -> badurl_loop (d ++ [0]) 0 = Some n ->
+  exists rem rest, d = rem ++ rest /\ rbody rem rest /\ ((rest = [] /\ n = len rem) \/ (exists r, rest = 41 :: r /\ n = len rem + 1)).
+Proof.
+  induction m as [|m IH]; intros d n Hlen H.
+  - destruct d as [|c t]; [|cbn [length] in Hlen; lia]. cbn in H. apply Some_inj in H. subst n.
+    exists [], []. split; [reflexivity|]. split; [constructor|left; auto].
+  - destruct d as [|c t].
+    { cbn in H. apply Some_inj in H. subst n. exists [], []. split; [reflexivity|]. split; [constructor|left; auto]. }
+    cbn [length] in Hlen. cbn [app] in H. rewrite badurl_loop_0, eofb_cons_sent in H.
+    destruct (c =? 41) eqn:E41.
+    { apply Some_inj in H. subst n. exists [], (c :: t). split; [reflexivity|]. split; [constructor|]. right. exists t. split; [f_equal; lia|reflexivity]. }
+    bind_inv H. destruct (0 <? x) eqn:Ex.
+    + change (c :: t ++ [0]) with ((c :: t) ++ [0]) in E.
+      destruct (escape_inv _ _ E) as (eb & r0 & nb & Hd & Hle & Heb & Hnb); [lia|].
+      destruct (esc_text_bs _ _ Heb) as (e' & -> & He'). cbn [app] in Hd. injection Hd as -> ->.
+      rewrite len_cons in Hle. replace (Z.to_nat (x - 1)) with (length e') in H by (unfold len in Hle; lia).
+      rewrite <- app_assoc, badurl_loop_skipn in H.
+      destruct (badurl_loop (r0 ++ [0]) 0) as [n'|] eqn:El; [|discriminate H]. cbn [shift bump] in H. apply Some_inj in H. subst n.
+      assert (Hlt : (length r0 <= m)%nat) by (rewrite app_length in Hlen; lia).
+      destruct (IH _ _ Hlt El) as (rem & rest & -> & Hb & Hend).
+      exists ((92 :: e') ++ rem), rest. split; [cbn [app]; rewrite <- app_assoc; reflexivity|]. split; [apply (RB_esc _ nb); assumption|].
+      rewrite len_app, len_cons. destruct Hend as [(-> & ->)|(r & -> & ->)]; [left; split; [reflexivity|lia]|right; exists r; split; [reflexivity|lia]].
+    + destruct (badurl_loop (t ++ [0]) 0) as [n'|] eqn:El; [|discriminate H]. cbn [bump] in H. apply Some_inj in H. subst n.
+      assert (Hlt : (length t <= m)%nat) by lia.
+      destruct (IH _ _ Hlt El) as (rem & rest & -> & Hb & Hend).
+      exists (c :: rem), rest. split; [reflexivity|]. split.
+      * destruct (c =? 92) eqn:E92.
+        -- assert (c = 92) by lia. subst c. apply RB_bs; [|exact Hb]. change (92 :: (rem ++ rest) ++ [0]) with (92 :: (rem ++ rest) ++ [0]) in E.
+           destruct (escape_zero_inv _ _ E) as [H0|H0]; [lia|left; exact H0|right; exact H0].
+        -- apply RB_char; [lia|lia|exact Hb].
+      * rewrite len_cons. destruct Hend as [(-> & ->)|(r & -> & ->)]; [left; split; [reflexivity|lia]|right; exists r; split; [reflexivity|lia]].
+Qed.
+
+Lemma badurl_whole d : badurl_loop (d ++ [0]) 0 = Some (len d) -> exists rem cl, d = rem ++ cl /\ rbody rem cl /\ closer0 cl.
+Proof.
+  intros H. destruct (badurl_loop_inv _ d _ (le_n _) H) as (rem & rest & -> & Hb & [(-> & Hn)|(r & -> & Hn)]).
+  - exists rem, []. split; [reflexivity|]. split; [exact Hb|right; reflexivity].
+  - rewrite len_app, len_cons in Hn. nil_of r Hn. exists rem, [41]. split; [reflexivity|]. split; [exact Hb|left; reflexivity].
+Qed.
+
+Definition end_shape (ty : ttype) (d : list Z) : Prop :=
+  exists ws2, all_b is_ws ws2 /\
+    ((ty = TURL /\ exists cl, d = ws2 ++ cl /\ closer0 cl) \/
+     (ty = TBadURL /\ exists rem cl, d = ws2 ++ rem ++ cl /\ rem <> [] /\ is_ws (hd0 rem) = false /\ hd0 rem <> 41 /\ rbody rem cl /\ closer0 cl)).
+
+Lemma url_end_whole n d ty : url_end n (d ++ [0]) = Some (ty, n + len d) -> end_shape ty d.
+Proof.
+  unfold url_end. intros H. bind_inv H. destruct (scan_while_sent is_ws eq_refl _ _ E) as (ws2 & r & -> & Hl & Hws & Hr).
+  assert (Hsk : skipz x ((ws2 ++ r) ++ [0]) = r ++ [0]) by (rewrite <- app_assoc, <- Hl; apply skipz_len_app). rewrite Hsk in H.
+  unfold consume_byte in H. rewrite peekz_sent_0 in H. cbn [option_bind] in H. rewrite len_app in H. exists ws2. split; [exact Hws|].
+  destruct (hd0 r =? 41) eqn:E41.
+  - change (0 <? 1) with true in H. cbn [orb] in H. apply Some_pair_inj in H. destruct H as [<- Hn].
+    destruct (hd0_is r 41) as (r' & ->); [lia|lia|]. nil_of r' Hn. left. split; [reflexivity|]. exists [41]. split; [reflexivity|left; reflexivity].
+  - change (0 <? 0) with false in H. cbn [orb] in H. destruct (eofb (r ++ [0])) eqn:Ee.
+    + apply Some_pair_inj in H. destruct H as [<- Hn]. assert (r = []) by (apply len0_nil; lia). subst r.
+      left. split; [reflexivity|]. exists []. split; [reflexivity|right; reflexivity].
+    + bind_inv H. apply Some_pair_inj in H. destruct H as [<- Hn]. assert (x0 = len r) by lia. subst x0.
+      destruct (badurl_whole _ E0) as (rem & cl & -> & Hb & Hcl). right. split; [reflexivity|].
+      assert (Hne : rem <> []).
+      { intros ->. cbn [app] in *. destruct Hcl as [-> | ->]; [cbn in E41; discriminate|cbn in Ee; discriminate]. }
+      exists rem, cl. split; [reflexivity|]. destruct rem as [|c0 rem']; [congruence|]. cbn [app hd0] in *.
+      split; [discriminate|]. split; [exact Hr|]. split; [lia|]. split; [exact Hb|exact Hcl].
+Qed.
+
+Lemma string_arg_inv q d1 ty n : is_quote q -> consume_string ((q :: d1) ++ [0]) = Some (ty, n) ->
+  exists s y bad, q :: d1 = s ++ y /\ qarg s y bad /\ n = len s /\ ty = (if bad then TBadString else TString).
+Proof.
+  intros Hq H. unfold consume_string in H. cbn [app] in H. rewrite peekz_0 in H. cbn [option_bind tl] in H.
+  destruct (string_loop q (d1 ++ [0]) 0) as [[ty' n']|] eqn:El; [|discriminate H]. cbn [bump2] in H.
+  apply Some_pair_inj in H. destruct H as [<- <-].
+  destruct (string_loop_inv q _ d1 _ _ (le_n _) El) as (body & rest & extra & -> & Hb & Hn' & He).
+  destruct He as [(-> & -> & ->)|[(-> & -> & nl & r & -> & Hnl)|[(-> & -> & r & ->)|(-> & -> & ->)]]].
+  - exists (q :: body ++ []), [], false. split; [rewrite !app_nil_r; reflexivity|]. split; [apply QA_eof; auto|].
+    split; [rewrite app_nil_r, len_cons; lia|reflexivity].
+  - exists (q :: body ++ [nl]), r, true. split; [cbn [app]; rewrite <- app_assoc; reflexivity|]. split; [apply QA_bad; assumption|].
+    split; [rewrite len_cons, len_app; change (len [nl]) with 1; lia|reflexivity].
+  - exists (q :: body ++ [q]), r, false. split; [cbn [app]; rewrite <- app_assoc; reflexivity|]. split; [apply QA_str; assumption|].
+    split; [rewrite len_cons, len_app; change (len [q]) with 1; lia|reflexivity].
+  - exists (q :: body ++ [92]), [], false. split; [rewrite app_nil_r; reflexivity|]. split; [apply QA_eof; auto|].
+    split; [rewrite len_cons, len_app; change (len [92]) with 1; lia|reflexivity].
+Qed.
+
+Lemma ws_nil_of_head (ws2 x : list Z) : all_b is_ws ws2 -> is_ws (hd0 (ws2 ++ x)) = false -> ws2 = [].
+Proof. intros H Hh. destruct ws2 as [|w t]; [reflexivity|]. inversion H; subst. cbn [app hd0] in Hh. congruence. Qed.
+
+Lemma skipz_len1_app (a : list Z) c x : skipz (len a + 1) (a ++ c :: x) = x.
+Proof.
+  change (a ++ c :: x) with (a ++ [c] ++ x). rewrite app_assoc.
+  replace (len a + 1) with (len (a ++ [c])) by (rewrite len_app; reflexivity). apply skipz_len_app.
+Qed.
+
+Lemma url_arg_whole n a ty : url_arg n (a ++ [0]) = Some (ty, n + len a) -> is_ws (hd0 a) = false -> arg_shape ty a.
+Proof.
+  unfold url_arg. rewrite peekz_sent_0. cbn [option_bind]. intros H Hws.
+  destruct ((hd0 a =? 34) || (hd0 a =? 39)) eqn:Eq.
+  - assert (Hq : is_quote (hd0 a)) by (unfold is_quote; lia).
+    destruct a as [|q d1]; [cbn in Eq; discriminate|]. cbn [hd0] in *. bind_inv H. destruct x as [sty sn].
+    destruct (string_arg_inv _ _ _ _ Hq E) as (s & y & bad & Ha & Hs & -> & ->). cbn [fst snd] in H. rewrite Ha in *.
+    assert (Hsk : skipz (len s) ((s ++ y) ++ [0]) = y ++ [0]) by (rewrite <- app_assoc; apply skipz_len_app). rewrite Hsk in H.
+    rewrite len_app in H. destruct bad; cbn [tt_eqb tt_code Z.eqb Pos.eqb] in H.
+    + bind_inv H. apply Some_pair_inj in H. destruct H as [<- Hn]. assert (x = len y) by lia. subst x.
+      destruct (badurl_whole _ E0) as (rem & cl & -> & Hb & Hcl). cbn [arg_shape]. right. right. right.
+      exists s, rem, cl. auto.
+    + replace (n + (len s + len y)) with ((n + len s) + len y) in H by lia. apply url_end_whole in H.
+      destruct H as (ws2 & Hw2 & [(-> & cl & -> & Hcl)|(-> & rem & cl & -> & Hne & Hrw & H41 & Hb & Hcl)]); cbn [arg_shape].
+      * right. exists s, ws2, cl. auto.
+      * right. right. left. exists s, ws2, rem, cl. repeat split; assumption.
+  - bind_inv H. destruct x as [ok un]. destruct (url_loop_inv _ a _ _ (le_n _) E) as (body & rest & -> & <- & Hub & Hend).
+    cbn [fst snd] in H. rewrite len_app in H.
+    assert (Hsk : skipz (len body) ((body ++ rest) ++ [0]) = rest ++ [0]) by (rewrite <- app_assoc; apply skipz_len_app).
+    destruct ok; cbn [uend] in Hend.
+    + rewrite Hsk in H. replace (n + (len body + len rest)) with ((n + len body) + len rest) in H by lia. apply url_end_whole in H.
+      destruct H as (ws2 & Hw2 & [(-> & cl & -> & Hcl)|(-> & rem & cl & -> & Hne & Hrw & H41 & Hb & Hcl)]).
+      * assert (ws2 = []).
+        { apply (ws_nil_of_head ws2 cl Hw2). destruct Hend as [H0|(r & H0)]; rewrite H0; reflexivity. }
+        subst ws2. cbn [arg_shape]. left. exists body, [], cl. repeat split; auto; constructor.
+      * exfalso. assert (ws2 = []).
+        { apply (ws_nil_of_head ws2 (rem ++ cl) Hw2). destruct Hend as [H0|(r & H0)]; rewrite H0; reflexivity. }
+        subst ws2. cbn [app] in Hend. destruct rem as [|c0 rem']; [congruence|]. cbn [app hd0] in *.
+        destruct Hend as [H0|(r & H0)]; [discriminate H0|]. injection H0 as -> _. lia.
+    + destruct Hend as (bc & y & -> & Hbad & H92). rewrite Hsk in H. unfold consume_whitespace in H. cbn [app] in H. rewrite peekz_0 in H.
+      cbn [option_bind] in H. rewrite len_cons in H.
+      destruct (is_ws bc) eqn:Ebw.
+      * change (0 <? 1) with true in H. cbv iota in H. rewrite <- app_assoc in H. cbn [app] in H. rewrite skipz_len1_app in H.
+        replace (n + (len body + (1 + len y))) with ((n + len body + 1) + len y) in H by lia. apply url_end_whole in H.
+        assert (Hbne : body <> []) by (intros ->; cbn [app hd0] in Hws; congruence).
+        destruct H as (ws2 & Hw2 & [(-> & cl & -> & Hcl)|(-> & rem & cl & -> & Hne & Hrw & H41 & Hb & Hcl)]); cbn [arg_shape].
+        -- left. exists body, (bc :: ws2), cl. split; [reflexivity|]. split; [exact Hub|]. split; [constructor; assumption|].
+           split; [intros; congruence|exact Hcl].
+        -- right. left. exists body, (bc :: ws2), rem, cl. split; [reflexivity|]. split; [exact Hub|]. split; [exact Hbne|].
+           split; [constructor; assumption|]. split; [discriminate|]. repeat split; assumption.
+      * change (0 <? 0) with false in H. cbv iota in H. bind_inv H. apply Some_pair_inj in H. destruct H as [<- Hn].
+        assert (x = len (bc :: y)) by (rewrite len_cons; lia). subst x.
+        change (bc :: y ++ [0]) with ((bc :: y) ++ [0]) in E0.
+        destruct (badurl_whole _ E0) as (rem & cl & Hr & Hb & Hcl).
+        assert (H41 : bc <> 41) by (intros ->; discriminate Hbad).
+        destruct rem as [|c0 rem']; [cbn [app] in Hr; destruct Hcl as [-> | ->]; [injection Hr as -> _; congruence|discriminate Hr]|].
+        cbn [app] in Hr. injection Hr as <- ->. cbn [arg_shape]. left. exists body, bc, rem', cl. split; [reflexivity|]. split; [exact Hub|].
+        split; [split; [exact Hbad|split; [exact Ebw|exact H92]]|]. split; [|split; [exact Hb|exact Hcl]].
+        intros ->. cbn [app hd0] in Eq. exact Eq.
+Qed.
+
+Lemma identlike_url b ty : consume_identlike (b ++ [0]) = Some (ty, len b) -> ty = TURL \/ ty = TBadURL ->
+  (forall rest n, b = 45 :: 45 :: rest -> consume_ident_token (b ++ [0]) = Some n -> n <= 0) -> url_like ty b.
+Proof.
+  unfold consume_identlike. intros H Hty Hnc. destruct (consume_ident_token (b ++ [0])) as [x|] eqn:E; [|discriminate H]. cbn [option_bind] in H.
+  destruct (x =? 0) eqn:E0; [apply Some_pair_inj in H; destruct H as [<- _]; destruct Hty; discriminate|].
+  destruct (consume_ident_token_ok b) as (m & Hm & Hm0). rewrite E in Hm. apply Some_inj in Hm. subst m.
+  destruct (name_inv _ _ E) as (name & r & -> & Hl & Hname); [lia|].
+  rewrite <- app_assoc in H. rewrite <- Hl in H. rewrite skipz_len_app, firstz_len_app in H.
+  rewrite peekz_sent_0 in H. cbn [option_bind] in H.
+  destruct (negb (hd0 r =? 40)) eqn:E40; [apply Some_pair_inj in H; destruct H as [<- _]; destruct Hty; discriminate|].
+  apply negb_false_iff in E40.
+  destruct (negb (is_url_name name)) eqn:Eu; [apply Some_pair_inj in H; destruct H as [<- _]; destruct Hty; discriminate|].
+  apply negb_false_iff in Eu. destruct (hd0_is r 40) as (r1 & ->); [lia|lia|]. cbn [app tl] in H.
+  bind_inv H. destruct (scan_while_sent is_ws eq_refl _ _ E1) as (ws1 & a & -> & Hlw & Hws1 & Ha).
+  assert (Hsk : skipz x0 ((ws1 ++ a) ++ [0]) = a ++ [0]) by (rewrite <- app_assoc, <- Hlw; apply skipz_len_app). rewrite Hsk in H.
+  rewrite len_app, len_cons, len_app in H.
+  replace (len name + (1 + (len ws1 + len a))) with ((len name + 1 + x0) + len a) in H by lia.
+  apply url_arg_whole in H; [|exact Ha].
+  exists name, ws1, a. split; [reflexivity|]. split; [|split; [exact Hws1|exact H]].
+  split; [|exact Eu]. destruct Hname as [Hi|Hc].
+  - apply (ident_text_follow _ _ _ Hi). split; [reflexivity|split; discriminate].
+  - exfalso. inversion Hc; subst. cbn [app] in Hnc. specialize (Hnc _ _ eq_refl eq_refl). rewrite !len_cons in *. pose proof (len_nonneg rest). lia.
+Qed.
+
+Lemma identlike_case b x ty : consume_identlike (b ++ [0]) = Some x -> Some (or_delim x) = Some (ty, len b) ->
+  (forall rest n, b = 45 :: 45 :: rest -> consume_ident_token (b ++ [0]) = Some n -> n <= 0) ->
+  b <> [] -> tok_shape ty b.
+Proof.
+  destruct x as [t n]. intros E H Hnc Hne.
+  destruct (consume_identlike_ty _ _ _ E) as [(-> & _)|[->|[->|[->| ->]]]]; unfold or_delim in H; cbn [fst is_err] in H;
+    apply Some_pair_inj in H; destruct H as [<- Hn].
+  - subst n. destruct (identlike_name _ _ _ E (or_introl eq_refl)) as (name & r & Hb & Hname & Htok & Hpos & [(_ & Hn)|(Hx & _)]); [|discriminate Hx].
+    destruct (whole _ _ _ Hb (eq_sym Hn)) as [-> ->]. destruct Hname as [Hi|Hc]; [exact Hi|]. exfalso.
+    inversion Hc; subst. specialize (Hnc _ _ eq_refl Htok). lia.
+  - destruct b as [|c b']; [congruence|]. apply delim_shape, Hn.
+  - subst n. destruct (identlike_name _ _ _ E (or_intror eq_refl)) as (name & r & Hb & Hname & Htok & Hpos & [(Hx & _)|(_ & Hn & H40 & Hu)]); [discriminate Hx|].
+    destruct (hd0_is r 40 H40) as (r' & ->); [lia|]. rewrite Hb, len_app in Hn. nil_of r' Hn.
+    cbn [tok_shape]. exists name. split; [exact Hb|]. split; [|exact Hu]. destruct Hname as [Hi|Hc]; [exact Hi|]. exfalso.
+    inversion Hc; subst. cbn [app] in Hnc. specialize (Hnc _ _ eq_refl Htok). lia.
+  - subst n. exact (identlike_url b TURL E (or_introl eq_refl) Hnc).
+  - subst n. exact (identlike_url b TBadURL E (or_intror eq_refl) Hnc).
+Qed.
+
+Lemma numeric_case b x ty : consume_numeric (b ++ [0]) = Some x -> Some (or_delim x) = Some (ty, len b) ->
+  b <> [] -> tok_shape ty b.
+Proof.
+  destruct x as [t n]. intros E H Hne. unfold or_delim in H. cbn [fst] in H.
   destruct (consume_numeric_ty _ _ _ E) as [->|[->|[->| ->]]]; cbn [is_err] in H; apply Some_pair_inj in H; destruct H as [<- Hn].
   - destruct b as [|c b']; [congruence|]. apply delim_shape, Hn.
   - subst n. apply numeric_shape; [exact E|auto].
   - subst n. apply numeric_shape; [exact E|auto].
-  - discriminate Hs.
+  - subst n. exact (dimension_inv b E).
 Qed.
 
-(* C07 (converse, for the shaped types): the scan of a token on its own bytes determines its shape *)
-Lemma scan_shape b ty : css_scan (b ++ [0]) = Some (ty, len b) -> b <> [] -> shaped ty = true -> tok_shape ty b.
+(* C07 (converse): the scan of a token on its own bytes determines its shape *)
+Lemma scan_shape b ty : css_scan (b ++ [0]) = Some (ty, len b) -> b <> [] -> tok_shape ty b.
 Proof.
-  intros H Hne Hs. destruct b as [|c b']; [congruence|]. cbn [app] in H.
+  intros H Hne. destruct b as [|c b']; [congruence|]. cbn [app] in H.
   unfold css_scan in H. rewrite peekz_0 in H. cbn [option_bind] in H.
   (* whitespace *)
   destruct (is_ws c) eqn:Ews.
@@ -271,13 +897,17 @@ Proof.
     lia. }
   (* hash *)
   destruct (c =? 35) eqn:E35.
-  { bind_inv H. free_case H. apply pos_tok_free. reflexivity. }
+  { bind_inv H. unfold pos_tok in H. destruct (0 <? x); res H Hn; [|apply delim_shape, Hn].
+    subst x. assert (c = 35) by lia. subst c. exact (hash_inv b' E). }
   (* strings *)
   destruct ((c =? 34) || (c =? 39)) eqn:Eq.
-  { bind_inv H. free_case H. apply or_delim_free, (string_free _ _ E). }
+  { bind_inv H. assert (Hq : is_quote c) by (unfold is_quote; lia). destruct x as [t n].
+    destruct (consume_string_ty _ _ _ E) as [-> | ->]; unfold or_delim in H; cbn [fst is_err] in H; res H Hn; subst n.
+    - exact (string_inv c b' TString Hq E).
+    - exact (string_inv c b' TBadString Hq E). }
   (* '.' and '+' *)
   destruct ((c =? 46) || (c =? 43)) eqn:Edp.
-  { bind_inv H. apply (numeric_case (c :: b') x ty E H Hne Hs). }
+  { bind_inv H. apply (numeric_case (c :: b') x ty E H Hne). }
   (* '-' *)
   destruct (c =? 45) eqn:E45.
   { bind_inv H. destruct (0 <? x) eqn:Ecdc.
@@ -288,13 +918,18 @@ Proof.
       cbn [app] in E. rewrite peekz_2, peekz_1, peekz_sent_0 in E. cbn [option_bind] in E. apply Some_inj in E.
       destruct (hd0 b1 =? 62) eqn:E2; [|lia]. destruct (hd0_is b1 62) as (b2 & ->); [lia|lia|].
       subst x. nil_of b2 Hn. assert (c = 45) by lia. subst c. cbn. in_fixed.
-    - bind_inv H. destruct (0 <? x0) eqn:Ecv; [res H Hn; discriminate Hs|].
+    - bind_inv H. destruct (0 <? x0) eqn:Ecv; [res H Hn; subst x0; apply (custom_inv (c :: b')); [exact E0|cbn [hd0]; lia]|].
       bind_inv H. destruct (negb (is_err (fst x1))) eqn:Eil.
-      + free_case H. destruct (identlike_free _ _ E1) as [Hx|Hx]; [apply negb_true_iff in Eil; congruence|left; exact Hx].
-      + bind_inv H. apply (numeric_case (c :: b') x2 ty E2 H Hne Hs). }
+      + apply (identlike_case (c :: b') x1 ty E1); [|  |exact Hne].
+        * unfold or_delim. apply negb_true_iff in Eil. rewrite Eil. exact H.
+        * intros rest n0 Hb Htok. injection Hb as _ Hb'. subst b'. cbn [app] in Htok.
+          unfold consume_custom_variable in E0. cbn [app] in E0. rewrite peekz_1, peekz_0 in E0. cbn [option_bind Z.eqb Pos.eqb negb] in E0.
+          rewrite E0 in Htok. apply Some_inj in Htok. lia.
+      + bind_inv H. apply (numeric_case (c :: b') x2 ty E2 H Hne). }
   (* '@' *)
   destruct (c =? 64) eqn:E64.
-  { bind_inv H. free_case H. apply pos_tok_free. reflexivity. }
+  { bind_inv H. unfold pos_tok in H. destruct (0 <? x); res H Hn; [|apply delim_shape, Hn].
+    subst x. assert (c = 64) by lia. subst c. exact (at_inv b' E). }
   (* '$' '*' '^' '~' *)
   destruct ((c =? 36) || (c =? 42) || (c =? 94) || (c =? 126)) eqn:Em.
   { bind_inv H. unfold consume_match in E. rewrite peekz_1, peekz_sent_0, peekz_0 in E. cbn [option_bind] in E.
@@ -335,14 +970,14 @@ Proof.
     - nil_of b4 Hn. assert (c = 60) by lia. subst c. cbn. in_fixed. }
   (* '\' *)
   destruct (c =? 92) eqn:E92.
-  { bind_inv H. free_case H. apply or_delim_free, (identlike_free _ _ E). }
+  { bind_inv H. apply (identlike_case (c :: b') x ty E H); [|exact Hne]. intros rest n0 Hb _. injection Hb as Hc _. lia. }
   (* 'u' 'U' *)
   destruct ((c =? 117) || (c =? 85)) eqn:Eu.
   { bind_inv H. destruct (0 <? x) eqn:Eur.
     { res H Hn. destruct (urange_inv _ _ E) as (t & r & Hl & Hlt & Hsh); [lia|].
       change (c :: b' ++ [0]) with ((c :: b') ++ [0]) in Hl. apply app_len_inj in Hl; [|lia].
       cbn [tok_shape]. rewrite (proj1 Hl). exact Hsh. }
-    bind_inv H. free_case H. apply or_delim_free, (identlike_free _ _ E0). }
+    bind_inv H. apply (identlike_case (c :: b') x0 ty E0 H); [|exact Hne]. intros rest n0 Hb _. injection Hb as Hc _. lia. }
   (* '|' *)
   destruct (c =? 124) eqn:E124.
   { bind_inv H. unfold consume_match in E. rewrite peekz_1, peekz_sent_0, peekz_0 in E. cbn [option_bind] in E.
@@ -361,12 +996,12 @@ Proof.
   { rewrite eofb_cons_sent in H. res H Hn. apply delim_shape, Hn. }
   (* anything else: a number or a name *)
   bind_inv H. destruct (negb (is_err (fst x))) eqn:En.
-  - apply (numeric_case (c :: b') x ty E); [|exact Hne|exact Hs]. unfold or_delim. apply negb_true_iff in En. rewrite En. exact H.
-  - bind_inv H. free_case H. apply or_delim_free, (identlike_free _ _ E1).
+  - apply (numeric_case (c :: b') x ty E); [|exact Hne]. unfold or_delim. apply negb_true_iff in En. rewrite En. exact H.
+  - bind_inv H. apply (identlike_case (c :: b') x0 ty E1 H); [|exact Hne]. intros rest n0 Hb _. injection Hb as Hc _. lia.
 Qed.
 
-(* C07 (converse, for the shaped types): every token the lexer returns of one of these types has the shape of its type *)
-Lemma css_tokens_shaped_proof : forall d toks ty b, css_lex d = LexDone toks -> In (ty, b) toks -> shaped ty = true -> tok_shape ty b.
+(* C07 (converse): every token the lexer returns has the shape of its type *)
+Lemma css_tokens_shaped_proof : forall d toks ty b, css_lex d = LexDone toks -> In (ty, b) toks -> tok_shape ty b.
 Proof.
-  intros d toks ty b Hl Hin Hs. destruct (tok_scan d toks ty b Hl Hin) as (Hsc & _ & Hne). apply scan_shape; assumption.
+  intros d toks ty b Hl Hin. destruct (tok_scan d toks ty b Hl Hin) as (Hsc & _ & Hne). apply scan_shape; assumption.
 Qed.
